@@ -1,0 +1,39 @@
+// Copyright 2025 CloudWeGo Authors
+//
+// Licensed under the Apache License, Version 2.0 (the "License");
+// you may not use this file except in compliance with the License.
+// You may obtain a copy of the License at
+//
+//    http://www.apache.org/licenses/LICENSE-2.0
+//
+// Unless required by applicable law or agreed to in writing, software
+// distributed under the License is distributed on an "AS IS" BASIS,
+// WITHOUT WARRANTIES OR CONDITIONS OF ANY KIND, either express or implied.
+// See the License for the specific language governing permissions and
+// limitations under the License.
+
+//go:build verif
+// +build verif
+
+package netpoll
+
+import "sync/atomic"
+
+// Handlers are installed by the verification harness (in-package test files);
+// all logic lives there. A nil handler makes the hook a no-op.
+var (
+	verifPointHandler atomic.Value // func(id int, obj interface{}, arg int)
+	verifFDHandler    atomic.Value // func(kind int, owner interface{}, fd int)
+)
+
+func verifPoint(id int, obj interface{}, arg int) {
+	if h, _ := verifPointHandler.Load().(func(int, interface{}, int)); h != nil {
+		h(id, obj, arg)
+	}
+}
+
+func verifFD(kind int, owner interface{}, fd int) {
+	if h, _ := verifFDHandler.Load().(func(int, interface{}, int)); h != nil {
+		h(kind, owner, fd)
+	}
+}
